@@ -86,4 +86,7 @@ def putU64 (buf : List UInt8) (x : Nat) : List UInt8 := buf ++ toBe 8 x
 /-- `BufMut::put_u8`. -/
 def putU8 (buf : List UInt8) (x : Nat) : List UInt8 := buf ++ [UInt8.ofNat x]
 
+/-- `str::starts_with` on strings as lists of code points. -/
+def startsWith (s pre : List Nat) : Bool := pre.isPrefixOf s
+
 end Selium.Rs
